@@ -57,6 +57,13 @@ def perturbations(r, w, mode):
     tgt = x.info[b"files"][r.randrange(len(x.info[b"files"]))] if x.multi else x.info
     tgt[b"md5sum"] = vfy.md5hex(b"something else")
     yield "wrong md5sum, right pieces", x, True, None
+    # the digest of an entry with nothing in it is still a listed MD5 (added after seeded change C03-10: "an empty file has no
+    # contents left to check" returned before the md5sum comparison)
+    x = clone()
+    empties = [e for e in (x.info[b"files"] if x.multi else [x.info]) if e.get(b"length") == 0]
+    if empties:
+        empties[r.randrange(len(empties))][b"md5sum"] = vfy.md5hex(b"something else")
+        yield "wrong md5sum on a zero-length entry, right pieces", x, True, None
     x = clone()
     for e in (x.info[b"files"] if x.multi else [x.info]):
         if b"md5sum" in e:
@@ -468,6 +475,7 @@ def run(ctx, pid="C03"):
     hash_selftest(ctx)
     if pid == "C03":
         vfy.big_piece_cases(ctx)
+        vfy.platform_limit_cases(ctx)
     cases = generate(ctx)
     tmp = tempfile.mkdtemp(prefix="c03-")
     try:
@@ -492,7 +500,7 @@ def judge(ctx, rec, m):
     ctx.count("oracle: " + (orc["expect"] or ("open (%s)" % orc["why"])))
     ctx.count("exit status %d" % rc)
     ctx.distinct((c["tag"], c["mode"], orc["expect"], rc, m))
-    if c["tag"] in ("consistent", "wrong md5sum, right pieces", "piece length 0", "one surplus piece hash"):
+    if c["tag"] in ("consistent", "wrong md5sum, right pieces", "wrong md5sum on a zero-length entry, right pieces", "piece length 0", "one surplus piece hash"):
         ctx.sample({"tag": c["tag"], "argv": rec["argv"], "torrent": rec["torrent"][:160].decode("latin-1"),
                     "exit_status": rc, "model": m, "oracle": orc["expect"]}, cap=8)
     d = lambda: vfy.describe(rec, m)
